@@ -31,11 +31,16 @@ def gen_range(rng, w):
     return r, kind
 
 
-FAMILIES = ['uniform-std', 'uniform-odd', 'mixed-std', 'mixed-any', 'F', 'D']
+FAMILIES = ['uniform-std', 'uniform-odd', 'mixed-std', 'mixed-any', 'F', 'D', 'many-par']
 
 
 def gen_spec(rng, max_events=40, max_par=5, datatype=None, allow_malformed=False, family=None):
     version = rng.choice(['FCS2.0', 'FCS3.0', 'FCS3.1'])
+    many = family == 'many-par'
+    if many:
+        # ten or more parameters (two-digit keyword numbers), otherwise like the other families
+        family = rng.choice(['uniform-std', 'mixed-std', 'mixed-any', 'F'])
+        max_events = min(max_events, 6)
     if family in ('F', 'D'):
         datatype = family
     elif family:
@@ -43,7 +48,7 @@ def gen_spec(rng, max_events=40, max_par=5, datatype=None, allow_malformed=False
     datatype = datatype or rng.choice(['I', 'I', 'I', 'I', 'F', 'D'])
     big = rng.random() < 0.5
     byteord = rng.choice(['4,3,2,1', '2,1']) if big else rng.choice(['1,2,3,4', '1,2'])
-    D = rng.randrange(1, max_par + 1)
+    D = rng.randrange(10, 15) if many else rng.randrange(1, max_par + 1)
     N = rng.choice([0, 1, 2, 3]) if rng.random() < 0.3 else rng.randrange(0, max_events + 1)
     if datatype == 'I' and family:
         if family == 'uniform-std':
